@@ -1,6 +1,7 @@
 /- Per-program translation validation of the main routine: recipe + real TEAL → verdict. -/
 import PyTealV.Check.Sim
 import PyTealV.Comp.Rename
+import PyTealV.Models.Fragment
 namespace PyTealV.Check
 open PyTealV PyTealV.Avm PyTealV.Comp PyTealV.Src
 
@@ -8,6 +9,7 @@ structure Validated where
   bindings : List (Nat × Nat)
   relSize : Nat
   blocks : Nat
+  inFragment : Bool      -- hypotheses of `gen_correct` hold for the renamed tree
 
 /-- untrusted discovery of the variable ↦ slot map, then the trusted certificate check `closed`
     on the renamed source.  `.ok` means: `closed G s P V = true` for the graph of the renamed tree. -/
@@ -19,7 +21,7 @@ def validateMain (version : Nat) (e : Expr) (P : Program) : Except String Valida
   let e' := renameVars (applyBindings bs) e
   let (G, s) ← genMain { version := version } e'
   let V ← (findSim (· == ·) G s P).mapError ("strict: " ++ ·)
-  if closed G s P V then pure ⟨bs, V.length, G.size⟩
+  if closed G s P V then pure ⟨bs, V.length, G.size, Models.Fragment.inFragment e'⟩
   else throw "certificate rejected by closed"
 
 end PyTealV.Check
